@@ -22,6 +22,7 @@ template <typename T> const char *ftype_name() {
     else if constexpr (std::is_reference_v<T>) return "int&";
     else if constexpr (std::is_same_v<T, int>) return "int";
     else if constexpr (std::is_same_v<T, tracked_mo>) return "move-only";
+    else if constexpr (std::is_same_v<T, vf::tracked_thr>) return "counted(throwing ctor)";
     else return "counted";
 }
 constexpr uint64_t BADVAL = 0xBADBADBAD;
